@@ -69,7 +69,7 @@ def writer_escape(model: Model):
     import re._constants as RC
     from ..anchors import schema as schema_anchors
     enc = schema_anchors(model).encoder
-    sites = [s for s in find_sites(model) if s.module == SCHEMA and s.api == "sub" and s.func == enc.qualname]
+    sites = [s for s in find_sites(model, (SCHEMA,)) if s.module == SCHEMA and s.api == "sub" and s.func == enc.qualname]
     if len(sites) != 1:
         raise AnalysisError(f"expected one re.sub in the qdstring encoder, found {len(sites)}")
     s = sites[0]
@@ -204,7 +204,7 @@ def unescape_single_pass(model: Model, run: Run) -> None:
     str.replace calls is order dependent as soon as one replacement's output can start another's input."""
     from ..anchors import schema as schema_anchors
     fi = schema_anchors(model).decoder
-    subs = [s for s in find_sites(model) if s.func == fi.qualname and s.api == "sub"]
+    subs = [s for s in find_sites(model, (SCHEMA,)) if s.func == fi.qualname and s.api == "sub"]
     chains = []
     pairs = []          # (search, replacement, node) in application order
     loops = {}
@@ -354,7 +354,7 @@ def check(model: Model, run: Run) -> None:
     # reader's un-escape pattern
     from ..anchors import schema as schema_anchors
     dec = schema_anchors(model).decoder
-    rsites = [s for s in find_sites(model) if s.func == dec.qualname and s.api == "sub"]
+    rsites = [s for s in find_sites(model, (SCHEMA,)) if s.func == dec.qualname and s.api == "sub"]
     reader_lang = None
     if len(rsites) == 1:
         reader_lang = Lang(build(rsites[0].pattern, rsites[0].flags, "fullmatch"))
@@ -407,7 +407,7 @@ def check(model: Model, run: Run) -> None:
         cls_txt = "".join("\\x%02x" % c if c < 256 else "\\u%04x" % c for c in esc_chars)
         alts = ["[^%s]" % cls_txt] + ["".join("\\x%02x" % ord(ch) for ch in f"\\{c:{fmt[1]}}") for c in esc_chars]
         wlang = Lang(build("'(?:%s)+'" % "|".join(alts), 0, "fullmatch"))
-        flags = _re.VERBOSE if any(s_.flags & _re.VERBOSE for s_ in find_sites(model) if s_.module == SCHEMA) else 0
+        flags = _re.VERBOSE if any(s_.flags & _re.VERBOSE for s_ in find_sites(model, (SCHEMA,)) if s_.module == SCHEMA) else 0
         rlang = Lang(build(frag, flags, "fullmatch"))
         w = difference_witness(wlang, rlang)
         shown = "".join(chr(c) if 0x20 <= c < 0x7F else f"\\u{c:04x}" if c <= 0xFFFF else f"\\U{c:08x}" for c in w) if w else None
@@ -483,7 +483,7 @@ def keyword_skeleton(model: Model, run: Run, folder: Folder, cname: str) -> None
     must be accepted by the description pattern (as optional elements in that order)."""
     q = f"{SCHEMA}.{cname}"
     sfi = model.find_method(q, "__str__")
-    used = [s for s in find_sites(model) if s.func == f"{q}.from_string" and s.api == "match" and s.name != "NOIDLEN_MATCH"]
+    used = [s for s in find_sites(model, (SCHEMA,)) if s.func == f"{q}.from_string" and s.api == "match" and s.name != "NOIDLEN_MATCH"]
     if len(used) != 1:
         raise AnalysisError(f"{q}: description pattern not found")
     code = Lang(build(used[0].pattern, used[0].flags, "match"))
@@ -759,7 +759,7 @@ def matched_text_is_the_input(model: Model, run: Run, rule: str) -> None:
     whitespace normalisation, case folding) changes the content of DESC / extension values."""
     from .c05 import may_raise
     mr = may_raise(model)
-    sites = [s_ for s_ in find_sites(model) if s_.module == SCHEMA and s_.api in ("match", "fullmatch") and s_.subject is not None and s_.func in model.functions]
+    sites = [s_ for s_ in find_sites(model, (SCHEMA,)) if s_.module == SCHEMA and s_.api in ("match", "fullmatch") and s_.subject is not None and s_.func in model.functions]
 
     def origin(e: ast.expr, fi: FuncInfo, depth: int = 0):
         """('param', name) | ('other', text) for where a str expression comes from"""
